@@ -396,6 +396,21 @@ func withPrefix(k int, os []opt, s string) string {
 	return s
 }
 
+// sepGood mirrors AddrFmt.sep_good: first byte of the separator in effect is not a
+// hex digit and, for ISD-AS text, the separator has no '-'.
+func sepGood(k int, os []opt) bool {
+	sep := effSep(os)
+	c := sep[0]
+	hex := c >= '0' && c <= '9' || c >= 'a' && c <= 'f' || c >= 'A' && c <= 'F'
+	switch k {
+	case kFAS:
+		return !hex
+	case kFIA:
+		return !hex && !strings.Contains(sep, "-")
+	}
+	return true
+}
+
 func effSep(os []opt) string {
 	sep := ":"
 	for _, o := range os {
@@ -434,11 +449,16 @@ func main() {
 		txt := format(k, os, v)
 		back, ok := parse(k, os, txt)
 		run.Tally(fmt.Sprintf("fmt:%s:back=%v", kName[k], ok && back == v))
+		var tags []string
+		if !sepGood(k, os) { // the class of the open finding: computed from the options alone
+			tags = []string{"separator-hex-or-dash"}
+			run.Tally("fmt:separator-hex-or-dash")
+		}
 		run.Add("fmt-"+kName[k],
 			vgen.App("CFmt", vgen.N(uint64(k)), optsT(os), vgen.N(v), vgen.Str(txt), vgen.Opt(vgen.N(back), ok)),
 			fmt.Sprint(k, optsD(os), v), true,
 			map[string]any{"codec": kName[k], "opts": optsD(os), "value": v, "text": txt,
-				"back": map[string]any{"ok": ok, "v": back}})
+				"back": map[string]any{"ok": ok, "v": back}}, tags...)
 	}
 	addParse := func(k int, os []opt, s string, nontrivial bool) {
 		if !run.Want() {
@@ -476,6 +496,22 @@ func main() {
 	}
 	for _, v := range svcVals {
 		addFmt(kSVC, nil, v)
+	}
+	// boundary values with separators that start with a hex digit or contain '-'
+	for _, k := range []int{kFAS, kFIA} {
+		for vi, v := range bounds {
+			for ci, os := range badCombos {
+				if run.Tier != "thorough" && (ci+vi)%9 != 0 {
+					continue
+				}
+				addFmt(k, os, clampFor(k, v))
+			}
+		}
+	}
+	for _, v := range []uint64{10203, 102030, 0xa000b000c, 0x1000a000b} {
+		addFmt(kFAS, []opt{{sep: "0"}}, v)
+		addFmt(kFAS, []opt{{sep: "a"}}, v)
+		addFmt(kFIA, []opt{{sep: "-"}}, v|1<<48)
 	}
 	// 2. random values x random option combinations
 	n := run.Count(400, 40000)
